@@ -198,6 +198,13 @@ def marathon(rec, rng, prop, n_texts=4200, altered_key="history/earlier-result-a
             r = None
         if r is not None and len(kept) < 6:
             kept.append((t, r, S.shadow(r)))
+        if i % 9 == 3:
+            # a failure INSIDE a group every now and then (whatever such a failure leaves behind adds up)
+            for bad in (f"{i} * (x +", f"sgn({i} -", f"(({i}y"):
+                try:
+                    p.parse(bad)
+                except Exception:
+                    pass
         if i % 613 == 5:
             try:
                 p.parse(f"{i} + * {i}")
